@@ -201,6 +201,65 @@ func enumerate(shard, nshards int, yield func(Case)) {
 		b, _ := json.Marshal(doc)
 		yield(Case{Files: map[string][]byte{"/w/root.json": b, "/w/aux.json": []byte(auxDoc)}, Root: "/w/root.json", Entry: "datawithpath", AllowExt: true})
 	})
+	// path items of another file whose callbacks lead back to a path of that file (cycles that
+	// internalisation cannot inline)
+	extCycles := []map[string]string{
+		{"/w/root.json": `{"openapi":"3.0.3","info":{"title":"t","version":"1"},"paths":{"/x":{"$ref":"ext.json#/paths/~1a"}}}`,
+			"/w/ext.json": `{"openapi":"3.0.3","info":{"title":"t","version":"1"},"paths":{"/a":{"post":{"callbacks":{"cb":{"{$request.body#/u}":{"$ref":"#/paths/~1a"}}},"responses":{"200":{"description":"d"}}}}}}`},
+		{"/w/root.json": `{"openapi":"3.0.3","info":{"title":"t","version":"1"},"paths":{"/x":{"$ref":"ext.json#/paths/~1a"},"/y":{"$ref":"ext.json#/paths/~1b"}}}`,
+			"/w/ext.json": `{"openapi":"3.0.3","info":{"title":"t","version":"1"},"paths":{"/a":{"post":{"callbacks":{"cb":{"{$request.body#/u}":{"$ref":"#/paths/~1b"}}},"responses":{"200":{"description":"d"}}}},"/b":{"get":{"callbacks":{"cb":{"{$request.body#/u}":{"$ref":"#/paths/~1a"}}},"responses":{"200":{"description":"d"}}}}}}`},
+		{"/w/root.json": `{"openapi":"3.0.3","info":{"title":"t","version":"1"},"paths":{"/x":{"$ref":"ext.json#/paths/~1a"}}}`,
+			"/w/ext.json": `{"openapi":"3.0.3","info":{"title":"t","version":"1"},"paths":{"/a":{"post":{"callbacks":{"cb":{"{$request.body#/u}":{"$ref":"#/paths/~1b"}}},"responses":{"200":{"description":"d"}}}},"/b":{"get":{"callbacks":{"cb":{"{$request.body#/u}":{"$ref":"#/paths/~1a"}}},"responses":{"200":{"description":"d"}}}}}}`},
+		{"/w/root.json": `{"openapi":"3.0.3","info":{"title":"t","version":"1"},"paths":{"/x":{"get":{"callbacks":{"cb":{"$ref":"ext.json#/components/callbacks/C"}},"responses":{"200":{"description":"d"}}}}}}`,
+			"/w/ext.json": `{"openapi":"3.0.3","info":{"title":"t","version":"1"},"paths":{"/a":{"post":{"callbacks":{"cb":{"$ref":"#/components/callbacks/C"}},"responses":{"200":{"description":"d"}}}}},"components":{"callbacks":{"C":{"{$request.body#/u}":{"$ref":"#/paths/~1a"}}}}}`},
+		{"/w/root.json": `{"openapi":"3.0.3","info":{"title":"t","version":"1"},"paths":{"/x":{"$ref":"item.json"}}}`,
+			"/w/item.json": `{"post":{"callbacks":{"cb":{"{$request.body#/u}":{"$ref":"item.json"}}},"responses":{"200":{"description":"d"}}}}`},
+	}
+	for i, files := range extCycles {
+		for _, entry := range []string{"uri", "datawithpath"} {
+			idx++
+			if idx%nshards != shard {
+				continue
+			}
+			c := Case{Files: map[string][]byte{}, Root: "/w/root.json", Entry: entry, AllowExt: true, VOpts: i % 2}
+			for k, v := range files {
+				c.Files[k] = []byte(v)
+			}
+			yield(c)
+		}
+	}
+	// pure reference graphs: four components of one kind, each a minimal object or a reference to any
+	// of the four (itself included): every cycle of references, every tail leading into one, in every
+	// name order, for every component kind
+	leaves := map[string]M{"schemas": {"type": "string"}, "parameters": {"name": "p", "in": "query", "schema": M{}}, "headers": {"schema": M{}}, "requestBodies": {"content": M{}},
+		"responses": {"description": "d"}, "examples": {"value": 1.0}, "links": {"operationId": "x"}, "callbacks": {}, "securitySchemes": {"type": "http", "scheme": "basic"}}
+	nodeNames := []string{"A", "B", "C", "D"}
+	for _, sec := range jv.Keys(anyMapM(leaves)) {
+		for code := 0; code < 625; code++ {
+			section := M{}
+			x := code
+			for i, name := range nodeNames {
+				choice := x % 5
+				x /= 5
+				if choice == 4 {
+					section[name] = jv.Clone(leaves[sec])
+				} else {
+					section[name] = M{"$ref": "#/components/" + sec + "/" + nodeNames[choice]}
+				}
+				_ = i
+			}
+			idx++
+			if idx%nshards != shard {
+				continue
+			}
+			doc := M{"openapi": "3.0.3", "info": M{"title": "t", "version": "1"}, "paths": M{}, "components": M{sec: section}}
+			if sec == "parameters" && code%2 == 0 {
+				doc["paths"] = M{"/p": M{"parameters": []any{M{"$ref": "#/components/parameters/D"}}}}
+			}
+			b, _ := json.Marshal(doc)
+			yield(Case{Files: map[string][]byte{"/w/root.json": b}, Root: "/w/root.json", Entry: []string{"data", "uri"}[code%2], AllowExt: code%3 == 0})
+		}
+	}
 	base := func(comps M, paths M) M {
 		return M{"openapi": "3.0.3", "info": M{"title": "t", "version": "1"}, "paths": paths, "components": comps}
 	}
@@ -284,6 +343,14 @@ func enumerateRetype(emit func(doc any)) {
 			}
 		}
 	}
+}
+
+func anyMapM(m map[string]M) map[string]any {
+	out := map[string]any{}
+	for k, v := range m {
+		out[k] = v
+	}
+	return out
 }
 
 func anyMap(m map[string]string) map[string]any {
